@@ -503,6 +503,19 @@ class Body:
             v = c.get('str', c.get('val'))
             if 'fn' in c:
                 return ('fnitem', c['fn']['path'], c['fn'])
+            m = re.fullmatch(r'const (.*)::promoted\[(\d+)\]', c.get('text') or '')
+            if m and v is None and depth < 300:
+                # a promoted constant (`&"MONEY"`, `&['-', '+']`): its value is what the promoted body returns
+                pb = self.facts.bodies.get('%s::{promoted#%s}' % (m.group(1), m.group(2))) or self.facts.bodies.get('%s::{promoted#%s}' % (self.path, m.group(2)))
+                if pb is None:
+                    sp = getattr(self.facts, 'spliced', {})
+                    for hp in sp:
+                        if m.group(1).endswith(hp.rsplit('::', 1)[-1]):
+                            pb = self.facts.bodies.get('%s::{promoted#%s}' % (hp, m.group(2)))
+                if pb is not None and pb is not self and not pb.loops() and len(pb.blocks) <= 4:
+                    r = pb.ret_expr()
+                    if r[0] != 'top' and all(x[0] in ('const', 'ref', 'deref', 'aggr', 'cast') for x in walk(r)):
+                        return r
             return ('const', c['ty'], v, c['text'])
         p = opplace(operand)
         if p is None:
@@ -873,6 +886,17 @@ def lower(facts, e):
         if c[0] == 'fnitem' or (c[0] == 'aggr' and str(c[1]).startswith('closure:')):
             v = apply_closure(facts, c, list(e[2]))
             if v is not None:
+                return v
+    if k == 'call' and e[2] and re.match(r'^core::(option::Option|result::Result)::<.*>::(unwrap|expect|unwrap_unchecked)$', e[1]):
+        # the value of `x.unwrap()` where x is a merged / lowered Option: the payload of the branch that builds Some / Ok
+        # (the panic on None is an obligation of E2, not a value)
+        o = e[2][0]
+        src = o
+        while src[0] in ('ref', 'deref'):
+            src = src[1]
+        if src[0] == 'phi' or (src[0] == 'aggr' and re.search(r'(Option::Some|Result::Ok)$', str(src[1]))):
+            v = _payload(o, 'Some' if _is_option_path(e[1]) else 'Ok')
+            if not (v[0] == 'field' and v[1][0] == 'downcast' and v[1][1] is o):
                 return v
     if k == 'call' and e[2]:
         m = COMB.match(e[1])
